@@ -409,6 +409,127 @@ fn stream_sparse(rep: &mut Report, m: &mut Model, root: &Rng, scale: u64) {
     }
 }
 
+// ------------------------------------------------------------------ stream: vector fields of a compressed snapshot
+// tensor_compress::format::{compress_vector, decompress_vector}: the lossless arms (VectorRaw, IdList).
+// A float is its bit pattern; the two casts and the float tests of looks_like_id_list are OBSERVED with the
+// real operators and handed to the model (Codec/VecFormat.lean), which decides the arm, the bytes and the
+// decoded bit patterns. The oracle is the property itself: decode(encode(v)) == v bit for bit.
+fn gen_vec_bits(r: &mut Rng) -> Vec<u32> {
+    let whole = |r: &mut Rng| -> u32 {
+        match r.below(10) {
+            0 => 0,                                   // +0.0
+            1 => 0x8000_0000,                         // -0.0 (a non-negative whole number for `<` and fract)
+            2 => (16_777_216.0f32).to_bits(),         // 2^24
+            3 => (4_294_967_296.0f32).to_bits(),      // 2^32
+            4 => (9_223_372_036_854_775_808.0f32).to_bits(), // 2^63
+            5 => 0x5F7F_FFFF,                         // largest f32 below 2^64
+            6 => (18_446_744_073_709_551_616.0f32).to_bits(), // 2^64: the cast saturates
+            _ => (r.below(50) as f32).to_bits(),
+        }
+    };
+    let n = match r.below(8) { 0 => 0, 1 => 1, _ => 2 + r.below(7) as usize };
+    match r.below(6) {
+        // non-decreasing whole numbers (the id-list heuristic fires), with -0.0 / +0.0 / boundary values mixed in
+        0 | 1 | 2 => {
+            let mut v: Vec<f32> = (0..n).map(|_| f32::from_bits(whole(r))).collect();
+            v.sort_by(|a, b| a.partial_cmp(b).unwrap());
+            // the sort is stable on -0.0 == +0.0: shuffle which zero comes first now and then
+            let mut bits: Vec<u32> = v.iter().map(|x| x.to_bits()).collect();
+            if r.chance(1, 3) {
+                for b in bits.iter_mut() { if *b == 0 && r.chance(1, 2) { *b = 0x8000_0000; } }
+            }
+            bits
+        }
+        // whole numbers in any order
+        3 => (0..n).map(|_| whole(r)).collect(),
+        // anything: NaNs, infinities, subnormals, fractions, negatives
+        _ => (0..n).map(|_| gen_bits(r)).collect(),
+    }
+}
+fn cv_line(op: &str, delta: bool, named: bool, v: &[f32]) -> String {
+    let nat = |xs: Vec<String>| if xs.is_empty() { "-".to_string() } else { xs.join(",") };
+    let bits = nat(v.iter().map(|f| f.to_bits().to_string()).collect());
+    #[allow(clippy::cast_possible_truncation, clippy::cast_sign_loss)]
+    let us = nat(v.iter().map(|f| (*f as u64).to_string()).collect());
+    #[allow(clippy::cast_possible_truncation, clippy::cast_sign_loss, clippy::cast_precision_loss)]
+    let back = nat(v.iter().map(|f| ((*f as u64) as f32).to_bits().to_string()).collect());
+    let whole = nat(v.iter().map(|f| u8::from(!(*f < 0.0) && !(f.fract() != 0.0)).to_string()).collect());
+    let ge = nat(v.iter().enumerate().map(|(i, f)| u8::from(i == 0 || !(*f < v[i - 1])).to_string()).collect());
+    format!("{op} {} {} {bits} {us} {back} {whole} {ge}", u8::from(delta), u8::from(named))
+}
+fn stream_vecformat(rep: &mut Report, m: &mut Model, root: &Rng, scale: u64) {
+    use tensor_compress::format::{compress_vector, decompress_vector, CompressedValue};
+    let run = |rep: &mut Report, m: &mut Model, bits: &[u32], field: &str, delta: bool, stream: &str| {
+        let v: Vec<f32> = bits.iter().map(|b| f32::from_bits(*b)).collect();
+        let cfg = tensor_compress::CompressionConfig { tensor_mode: None, delta_encoding: delta, rle_encoding: true };
+        let named = field == "ids" || field.ends_with("_ids");
+        let txt = show_u32s(bits);
+        let res = guarded(|| {
+            let c = compress_vector(&v, "row:1", field, &cfg).map_err(|e| format!("{e:?}"))?;
+            let d = decompress_vector(&c).map_err(|e| format!("{e:?}"))?;
+            Ok::<_, String>((c, d))
+        });
+        match res {
+            Err(p) => rep.violation("tensor_compress.format.compress_vector/panic", &p, json!({"bits": txt, "field": field, "delta_encoding": delta})),
+            Ok(Err(e)) => rep.violation("tensor_compress.format.compress_vector/lossless_arm_failed", &e.chars().take(80).collect::<String>(), json!({"bits": txt, "field": field, "delta_encoding": delta})),
+            Ok(Ok((c, d))) => {
+                let arm = match &c {
+                    CompressedValue::VectorRaw(raw) => format!("raw {}", show_bits(raw)),
+                    CompressedValue::IdList(bytes) => format!("idlist {}", hex(bytes)),
+                    _ => "other".to_string(),
+                };
+                rep.hit(&format!("vecformat.arm.{}", arm.split(' ').next().unwrap_or("")));
+                let imp = format!("{arm} | dec {}", show_bits(&d));
+                let line = cv_line("cv", delta, named, &v);
+                rep.compare(stream, || json!({"bits": txt, "field": field, "delta_encoding": delta}), &imp, &m.ask(&line));
+                // the property: a lossless field decodes to exactly what was encoded
+                if d.iter().map(|x| x.to_bits()).collect::<Vec<_>>() != bits {
+                    rep.violation(
+                        "tensor_compress.format.compress_vector/roundtrip_not_identity",
+                        "decompress_vector(compress_vector(v)) != v (bit patterns)",
+                        json!({"bits": txt, "decoded_bits": show_bits(&d), "field": field, "delta_encoding": delta, "arm": arm.split(' ').next()}),
+                    );
+                }
+                let nontrivial = matches!(c, CompressedValue::IdList(_)) && bits.len() >= 2;
+                let key = format!("{field}/{delta}/{txt}");
+                rep.case("vecformat", if nontrivial { Some(&key) } else { None });
+            }
+        }
+    };
+    // ---- directed first: the sign of zero, the u64 boundary, NaN / inf under an id-like NAME, empty and single
+    let f = |x: f32| x.to_bits();
+    let directed: Vec<(Vec<u32>, &str)> = vec![
+        (vec![0x8000_0000], "ids"),
+        (vec![0x8000_0000, f(3.0), f(4.0)], "data"),
+        (vec![0, 0x8000_0000, f(1.0)], "data"),
+        (vec![f(1.0), f(2.0), f(2.0), f(7.0)], "data"),
+        (vec![f(5.0), f(3.0), f(9.0)], "node_ids"),
+        (vec![f(18_446_744_073_709_551_616.0), f(18_446_744_073_709_551_616.0)], "ids"),
+        (vec![0x5F7F_FFFF, 0x5F7F_FFFF], "data"),
+        (vec![f(9_223_372_036_854_775_808.0), f(18_446_744_073_709_551_616.0)], "data"),
+        (vec![0x7FC0_0000, f(1.0)], "ids"),
+        (vec![0x7F80_0000], "edge_ids"),
+        (vec![f(1.5), f(2.0)], "ids"),
+        (vec![f(-1.0), f(2.0)], "ids"),
+        (vec![], "ids"),
+        (vec![], "data"),
+        (vec![f(4.0)], "data"),
+        (vec![f(16_777_216.0), f(16_777_218.0)], "data"),
+    ];
+    for (bits, field) in &directed {
+        for delta in [true, false] {
+            run(rep, m, bits, field, delta, "vecformat.directed");
+        }
+    }
+    let mut r = root.fork("vecformat");
+    for _ in 0..1500 * scale {
+        let bits = gen_vec_bits(&mut r);
+        let field = *r.pick(&["ids", "neighbor_ids", "data", "weights", "x"]);
+        let delta = !r.chance(1, 5);
+        run(rep, m, &bits, field, delta, "vecformat.random");
+    }
+}
+
 fn main() {
     let args = parse_args();
     let mut rep = Report::new(
@@ -729,6 +850,7 @@ fn main() {
 
     // ---- stream 6: sparse vectors and the embedding validator
     stream_sparse(&mut rep, &mut m, &root, scale);
+    stream_vecformat(&mut rep, &mut m, &root, scale);
 
     rep.note("lossy codecs (tensor-train, quantisation) are not modelled in this stream; see DESIGN.md C20");
     rep.write(&args.out);
